@@ -58,7 +58,7 @@ func c14Rule(i int, ci, ai int) *grl.Rule {
 }
 
 // unknown members are not understood by the reference model: they yield ErrEval through "no field"
-func c14Expr(s string) grl.Expr { return grl.E(s) }
+func c14Expr(s string) grl.Expr  { return grl.E(s) }
 func c14Act(s string) grl.Action { return grl.A(s) }
 
 func c14World(faultAt, kind int) func() *ref.World {
